@@ -98,7 +98,30 @@ func (fv *FV) constTerm(tv types.TypeAndValue, pos token.Pos) (Term, bool) {
 	return Term{}, false
 }
 
+// evalExpr evaluates e; a value of an unsigned type read from memory (dereference, field, element) is not negative.
 func (fv *FV) evalExpr(st *State, e ast.Expr) Term {
+	t := fv.evalExpr0(st, e)
+	if t.Sort == SInt {
+		switch stripParens(e).(type) {
+		case *ast.StarExpr, *ast.SelectorExpr, *ast.IndexExpr:
+			if tt := fv.info.TypeOf(e); tt != nil && isUnsigned(tt) && t.S != "" && !isNumeral(t.S) {
+				st.assume(T(sx(">=", t.S, "0"), SBool))
+			}
+		}
+	}
+	return t
+}
+
+func isNumeral(s string) bool {
+	for _, c := range s {
+		if c < '0' || c > '9' {
+			return false
+		}
+	}
+	return s != ""
+}
+
+func (fv *FV) evalExpr0(st *State, e ast.Expr) Term {
 	if tv, ok := fv.info.Types[e]; ok && tv.Value != nil {
 		if t, ok := fv.constTerm(tv, e.Pos()); ok {
 			return t
@@ -649,6 +672,9 @@ func (fv *FV) evalCompositeLit(st *State, x *ast.CompositeLit) Term {
 	case *types.Struct:
 		if isBigIntNamed(t) {
 			return tInt(0)
+		}
+		if isBigRatNamed(t) {
+			return Term{fv.ss.Zero(SRat), SRat} // the zero big.Rat denotes 0/1
 		}
 		if so.Kind == KOpaque {
 			r := fv.fresh("lit", so)
